@@ -328,6 +328,7 @@ func c14Walk(m *meta.Module) {
 		_ = t.FractionDigits()
 		_ = t.Path()
 		_ = t.UnionFormats()
+		_ = t.IdentityBases()
 		for _, u := range t.Union() {
 			walkType(u, depth+1)
 		}
@@ -887,6 +888,21 @@ func c14Cycles() []c14Scenario {
 		{"two-modules-in-one-text", `module a { namespace "urn:a"; prefix a; revision 0; } module b { namespace "urn:b"; prefix b; revision 0; }`, nil},
 	} {
 		out = append(out, extra)
+	}
+	// bounds of range and length that are no plain numbers, in every position of one and two alternatives
+	for _, tok := range []string{"NaN", "Inf", "+inf", "-Infinity", "1e400", "-1e400", "0x10", "1_0", "1e2", ".5", "5.", "--1", "+-1", "min", "max", "MAX", "", " "} {
+		for si, shape := range []string{"1..%s", "%s..5", "%s", "1..2 | 4..%s", "%s..2 | 4..5", "1..2 | %s", "%s | 4..5", "1..2|4..5|%s..9", "%s..%s"} {
+			arg := strings.Replace(shape, "%s", tok, -1)
+			name := fmt.Sprintf("bound-%q-shape-%d", tok, si)
+			out = append(out,
+				c14Scenario{"range-int32/" + name, hdr + `leaf a { type int32 { range "` + arg + `"; } } }`, nil},
+				c14Scenario{"range-uint64/" + name, hdr + `leaf a { type uint64 { range "` + arg + `"; } } }`, nil},
+				c14Scenario{"range-decimal64/" + name, hdr + `leaf a { type decimal64 { fraction-digits 2; range "` + arg + `"; } } }`, nil},
+				c14Scenario{"length-string/" + name, hdr + `leaf a { type string { length "` + arg + `"; } } }`, nil},
+				c14Scenario{"range-typedef-narrowed/" + name, hdr + `typedef t { type int32 { range "0..100"; } } leaf-list a { type t { range "` + arg + `"; } } }`, nil},
+				c14Scenario{"range-union-member/" + name, hdr + `leaf a { type union { type int8 { range "` + arg + `"; } type string; } } }`, nil},
+			)
+		}
 	}
 	// every statement in every body: most placements are not YANG, some are and mean nothing there
 	// (config below rpc input); each is one load
